@@ -7,6 +7,9 @@ package coroutines
 
 //@ func ReadPromise
 //@ props C01 C02 C04 C20
+// a promise that is timed out goes to the state its resonate:timeout tag names: resolved only for the exact value
+// "true", rejected-timedout for anything else (C04, C14: searches report it in that state; C01)
+//@ site call completePromise assert [C04 C14 C01] (p.Tags["resonate:timeout"] == "true" ==> cmd.State == promise.Resolved) && (p.Tags["resonate:timeout"] != "true" ==> cmd.State == promise.Timedout)
 // a request is retried only after a store transaction that went through without effect (a conflict with
 // another coroutine); a failed transaction is answered with the error, never retried (C12: while the store
 // keeps failing the request would otherwise never be answered)
@@ -240,6 +243,9 @@ package coroutines
 
 //@ func TimeoutPromises$1
 //@ props C01 C04 C05 C08 C02 C06
+// a promise that is timed out goes to the state its resonate:timeout tag names: resolved only for the exact value
+// "true", rejected-timedout for anything else (C04, C14: searches report it in that state; C01)
+//@ site call completePromise assert [C04 C14 C01] (p.Tags["resonate:timeout"] == "true" ==> cmd.State == promise.Resolved) && (p.Tags["resonate:timeout"] != "true" ==> cmd.State == promise.Timedout)
 //@ serves C06
 //@ ghostdb coroutine
 //@ nopanic C13
@@ -319,6 +325,9 @@ package coroutines
 // same filter and the sort id of the last row. K is an arbitrary index into the page.
 //@ func SearchPromises
 //@ props C04 C14
+// a promise that is timed out goes to the state its resonate:timeout tag names: resolved only for the exact value
+// "true", rejected-timedout for anything else (C04, C14: searches report it in that state; C01)
+//@ site call completePromise assert [C04 C14 C01] (p.Tags["resonate:timeout"] == "true" ==> cmd.State == promise.Resolved) && (p.Tags["resonate:timeout"] != "true" ==> cmd.State == promise.Timedout)
 //@ serves C05 C06 C08
 //@ ghostdb coroutine
 //@ nopanic C13
